@@ -438,4 +438,33 @@ theorem read_fields_decode : ∀ (fs : ArrFields) (i : Nat) (vals : List (String
     rfl
 end
 
+/-- layout freedoms are irrelevant: the result of a read is a function of the decoded value (and the type skeleton
+through `toD`) only.  Any two arrays — or two slots — that decode to the same logical value read the same: non-zero
+first offsets, unreferenced child ranges, garbage under nulls, unused / duplicate dictionary values, several view
+buffers and bitmap bit offsets all leave `decodeAt` unchanged, hence the read. -/
+theorem C02_layout_irrelevant (a b : Arr) (i j : Nat) (lv : LVal)
+    (ha : decodeAt a i = .ok lv) (hb : decodeAt b j = .ok lv)
+    (hna : new Fixes.all a = .ok ()) (hnb : new Fixes.all b = .ok ())
+    (hpa : physical a = true) (hpb : physical b = true) (hu : utf8Ok lv = true)
+    (hshape : toD a lv = toD b lv) :
+    readAny Fixes.all a i = readAny Fixes.all b j := by
+  rw [read_any_decode a i lv ha hna hpa hu, read_any_decode b j lv hb hnb hpb hu, hshape]
+
+/-! instances (computed): a canonical layout and a layout with a non-zero first offset, garbage under the null, a
+bitmap bit offset, an unused and a duplicate dictionary value, an unreferenced child prefix -/
+example :
+    let canon : Arr := .bytes .utf8 (some ⟨[0b101], 0⟩) [0, 1, 1, 3] [97, 98, 99]
+    let odd : Arr := .bytes .utf8 (some ⟨[0b10111], 2⟩) [2, 3, 5, 7] [0, 0, 97, 120, 121, 98, 99, 0]
+    (List.range 3).map (readAny Fixes.all canon) = (List.range 3).map (readAny Fixes.all odd) := by decide
+
+example :
+    let canon : Arr := .dictionary (.prim .int8 none [0, 1, 0]) (.bytes .utf8 none [0, 1, 2] [97, 98])
+    let odd : Arr := .dictionary (.prim .int8 none [3, 1, 0]) (.bytes .utf8 none [0, 1, 2, 3, 4] [97, 98, 122, 97])
+    (List.range 3).map (readAny Fixes.all canon) = (List.range 3).map (readAny Fixes.all odd) := by decide
+
+example :
+    let canon : Arr := .list false none [0, 2, 3] ⟨"element", false, []⟩ (.prim .int32 none [1, 2, 3])
+    let odd : Arr := .list false none [2, 4, 5] ⟨"element", false, []⟩ (.prim .int32 none [9, 9, 1, 2, 3, 9])
+    (List.range 2).map (readAny Fixes.all canon) = (List.range 2).map (readAny Fixes.all odd) := by decide
+
 end SaModel.Props.C02
